@@ -133,7 +133,7 @@ def step (w : World) (line : String) : World × String :=
     match p, slot? kv with
     | [n, par, tn, ty], some s =>
       if fresh w n && kindIs w par .participant && onlyKeys ["listener"] kv && (ty == "ki" || ty == "ni") then
-        (iterate (addEnt w { name := n, kind := .topic, parent := par, tname := tn, ty := ty, slot := s }), "ok *")
+        (iterate (meetTopics (addEnt w { name := n, kind := .topic, parent := par, tname := tn, ty := ty, slot := s }) n), "ok *")
       else (w, "bad-op")
     | _, _ => (w, "bad-op")
   | "writer" :: rest =>
@@ -187,7 +187,7 @@ def step (w : World) (line : String) : World × String :=
     | none => (w, "bad-op")
   | ["status", n, "inconsistent_topic"] =>
     match w.find n with
-    | some e => if e.kind == .topic then (iterate w, s!"ok total={e.known.length}") else (w, "bad-op")
+    | some e => if e.kind == .topic then (iterate w, s!"ok total={e.incons}") else (w, "bad-op")
     | none => (w, "bad-op")
   | ["read", n] =>
     match w.find n with
